@@ -34,13 +34,13 @@ JUNK = ("#", (35, 44, frozenset({1})))
 def expected_cells(row):
     """[(char, SGR state)] a row value (FmtStr model object or str) shows."""
     if isinstance(row, str):
-        return [(ch, sgr.DEFAULT) for ch in row]
+        return termmodel.cells_of_text([(ch, sgr.DEFAULT) for ch in row])
     out = []
     for ch, eff in cells(runs_of(row)):
         d = dict(eff)
         styles = {k: v for k, v in d.items() if k not in ("fg", "bg")}
         out.append((ch, sgr.expected_state(d.get("fg"), d.get("bg"), styles)))
-    return out
+    return termmodel.cells_of_text(out)
 
 
 def rows_of(array):
